@@ -27,6 +27,9 @@ import (
 type Seq struct {
 	Progs []libexec.Prog `json:"progs"`
 	Dbg   []bool         `json:"dbg"`
+	// Shared runs the whole sequence on ONE set of library objects (transaction, input, script
+	// objects, spent output) whose fields and script bytes are refilled in place for every run
+	Shared bool `json:"shared,omitempty"`
 }
 
 // dirtying programs: each ends its execution in a state a careless reset would carry over
@@ -81,19 +84,27 @@ func checkSeq(ctx *pbt.Ctx, c Seq) error {
 	}
 	eng := interpreter.NewEngine()
 	kinds := map[string]bool{}
+	runOn := libexec.RunOn
+	if c.Shared {
+		runOn = (&libexec.Reuse{}).RunOn
+		ctx.Label("shared_objects")
+	}
 	for i, p := range c.Progs {
 		flags := interp.Flags(p.Flags)
 		var rec *libexec.Recorder
 		var out libexec.Outcome
 		if c.Dbg[i] || i == len(c.Progs)-1 {
 			rec = &libexec.Recorder{}
-			out = libexec.RunOn(eng, p.Unlock, p.Lock, flags, p.Ctx, rec)
+			out = runOn(eng, p.Unlock, p.Lock, flags, p.Ctx, rec)
 		} else {
-			out = libexec.RunOn(eng, p.Unlock, p.Lock, flags, p.Ctx, nil)
+			out = runOn(eng, p.Unlock, p.Lock, flags, p.Ctx, nil)
 		}
 		id := fmt.Sprintf("run %d of %d on one engine (unlock=%x lock=%x flags=%#x)", i+1, len(c.Progs), []byte(p.Unlock), []byte(p.Lock), p.Flags)
 		if out.Panic != "" {
 			return fmt.Errorf("library panicked in %s: %s", id, out.Panic)
+		}
+		if out.Damage != "" {
+			return fmt.Errorf("%s: %s", id, out.Damage)
 		}
 		libOK := out.Err == nil
 		if libOK != refs[i].OK {
@@ -151,6 +162,7 @@ func genSeq(t *rapid.T) Seq {
 		c.Progs = append(c.Progs, p)
 		c.Dbg = append(c.Dbg, rapid.Bool().Draw(t, "dbg"))
 	}
+	c.Shared = rapid.IntRange(0, 2).Draw(t, "shared") == 0
 	return c
 }
 
